@@ -29,7 +29,7 @@ class C14(Check):
     ID = 'C14'
     TRACE_FILES = ('lib/statemachine.py', 'states.py')
     TIERS = {'quick': {'runs': 24000, 'wall': 80}, 'thorough': {'runs': 400000, 'wall': 800}}
-    RULE = ('case = program (4 state behaviours scripts over {retry, next, self, finish, non-callable, raise}, cleanup '
+    RULE = ('[30 % module world: HasStates Drivable in a real node over the wire; a quarter of those: start, stop, start, stop within a stop cleanup of 3..6 cycles; last call of a run may take 0.3 / 0.8 s] ' 'case = program (4 state behaviours scripts over {retry, next, self, finish, non-callable, raise}, cleanup '
             'behaviours {none, chain, non-callable, raise}, maxloops in {2,3,10}) + <= 12 commands {start(state, cleanup?, '
             'attributes), stop, wait} from a second task while the first task cycles; distinct = different (case digest, '
             'schedule digest); non-trivial = >= 1 start/stop arrived while the machine was active and >= 1 scheduling '
